@@ -52,6 +52,8 @@ type Result struct {
 	Trace      []string     // human readable, only when RunOpts.KeepTrace
 	NonTrivial bool         // by the property's stated rule
 	Class      uint64       // what is counted as "distinct" among non-trivial runs
+	Classes    []uint64     // when set, counted instead of Class (a run that reaches several distinct cases)
+	Skipped    bool         // enumeration slot that is not a case (not counted as an evaluation)
 	Steps      int64        // simulated steps (scheduler steps, history operations, helper cases)
 	SimTimeNs  int64        // simulated clock covered
 	Faults     Counters     // fault kinds that actually fired
@@ -97,6 +99,10 @@ type Property interface {
 	// Prelude runs once per check before the seeded batch (enumerated parts, static scans);
 	// it may return a violation, infra trouble, and counters merged into the evidence.
 	Prelude(o RunOpts) *Result
+	// EnumSize is the size of the enumerated (non-seeded) part, walked completely by every
+	// check; RunEnum evaluates slot i of it.
+	EnumSize(tier string) int
+	RunEnum(i int, o RunOpts) *Result
 	// Run executes one simulated run decided entirely by the tape.
 	Run(t *Tape, o RunOpts) *Result
 }
